@@ -60,15 +60,16 @@ type childResult struct {
 	FloodErrs   int64    `json:"flood_errs"`
 }
 
-func freePort(base int) int {
-	for p := base; p < base+200; p++ {
-		ln, err := net.Listen("tcp", fmt.Sprintf("127.0.0.1:%d", p))
-		if err == nil {
-			ln.Close()
-			return p
-		}
+// freePort returns a loopback TCP port that is free right now, chosen by the kernel (ports derived from the
+// config index collided when several runs of this check shared a machine; the kernel hands out its ephemeral ports
+// in rotation, so two probes rarely get the same one). The argument is kept for the callers' sake.
+func freePort(_ int) int {
+	ln, err := net.Listen("tcp", "127.0.0.1:0")
+	if err != nil {
+		return 0
 	}
-	return 0
+	defer ln.Close()
+	return ln.Addr().(*net.TCPAddr).Port
 }
 
 type genCfg struct {
@@ -355,6 +356,9 @@ func childRun(args []string) int {
 		portA := freePort(base)
 		apiA := freePort(portA + 1)
 		apiB := freePort(apiA + 1)
+		for tries := 0; tries < 20 && (apiA == portA || apiB == portA || apiB == apiA); tries++ {
+			apiA, apiB = freePort(0), freePort(0)
+		}
 		if portA == 0 || apiA == 0 || apiB == 0 {
 			res.Inconcl = append(res.Inconcl, "no free loopback port")
 			return emit()
@@ -724,6 +728,20 @@ func run(c *core.Ctx) {
 			out, err := cmd.CombinedOutput()
 			_ = os.RemoveAll(dir)
 			text := string(out)
+			for attempt := 0; attempt < 3 && strings.Contains(text, "address already in use"); attempt++ {
+				// somebody else took a port between the probe and the bind (another process on this machine): that
+				// is not a configuration "on free loopback ports" any more - the child is run again on other ports
+				res.Count("children_rerun_after_port_collision", 1)
+				again := exec.CommandContext(ctx, cmd.Path, cmd.Args[1:]...)
+				again.Env = cmd.Env
+				out, err = again.CombinedOutput()
+				_ = os.RemoveAll(dir)
+				text = string(out)
+			}
+			if strings.Contains(text, "address already in use") {
+				res.Count("children_skipped_port_collision", 1)
+				return
+			}
 			var cr childResult
 			got := false
 			for _, l := range strings.Split(text, "\n") {
